@@ -42,6 +42,18 @@ CLAIMED = {
          "Structural necessary conditions for the super-node role: promotion only under status mask AND capacity threshold AND delegation-share check (along every call chain); each failing requirement in the re-evaluation routine is followed by demotion; each share-affecting staking hook re-evaluates on every path and the hooks are registered with staking; capacity withdrawal re-tests after the decrement and demotes; Reset clears the role first; decision uses committed state only (D3). Agreement of the flag with the predicate over staking histories is not decided.",
          "Trusts the staking keeper's hook call protocol as documented in DESIGN §1; dependencies trusted.",
          "DESIGN.md §3 C20"),
+ "C15": ("E2/E3: guard dominance and must-avoid over the two node producers, index selection and GetSps; provenance of RandomSP's result; for-all accumulation of ignore lists at the four call sites",
+         "Structural necessary conditions of replica placement for all node populations, ignore lists and seeds: a node is produced for selection only after the capacity/status/reputation(/role, not-ignored) tests; RandomSP returns only nodes from those producers; an index equal to an earlier one is never appended; GetSps succeeds only with 0 < replica <= selected; every RandomSP call gets an ignore list that accumulates every existing holder (nil only for a new order). Uniformity and the count bound as arithmetic are not decided; termination of RandomIndex is C02.",
+         "Trusts dependencies; cyclic φ terms are compared by SSA identity where term text would be unstable.",
+         "DESIGN.md §3 C15"),
+ "C16": ("E1/E2/E3: writer table of the counter keys, term identities in Append*, guard dominance for in-flight exclusion and base-version comparison strength",
+         "Structural necessary conditions of identifier uniqueness and version linearity: counters written only by Append*/genesis with read, store-under-read, read+1, return-read; an existing model is re-pointed only when Complete and only when its latest order is Completed; the base-version comparison must be an equality (today it is a substring test: known finding). History shape over interleavings is not decided.",
+         "Trusts dependencies.",
+         "DESIGN.md §3 C16"),
+ "C08": ("E1/E2/E3: capability matrix for MintCoins/BurnCoins, guard dominance of mint and counter update, same-value identity of minted and counted coin, ordering (settle / change / re-base / persist) around capacity changes, claim remainder",
+         "Structural necessary conditions of block-reward accounting: coins are minted only from the node begin-blocker and never burnt (proof over the call graph); the counter grows only after a successful mint by exactly the minted coin; mint is dominated by the pledge/reward tests and the baseline replacement is a guarded minimum; every persisted capacity change is preceded by settlement at the old capacity and followed by re-basing; a claim persists exactly the fractional remainder. Halving numerics and the sum bound are not decided (the division by pool.TotalStorage is reported under C02).",
+         "Trusts dependencies; value identity is term identity (same access path, no intervening write assumed within the handler).",
+         "DESIGN.md §3 C08"),
 }
 
 NA_REASON = "check not implemented yet (framework under construction; see DESIGN.md section 3 for the planned structural clauses)"
